@@ -88,6 +88,7 @@ theorem execSimple_app (s : State) (fields : List String)
     | unalias => exact execUnalias_app _ _ _
     | set => exact execSet_app _ _ _
     | cat => exact execCat_app _ _ _ h
+    | echo => rfl
     | unknown => rfl
 
 /-! ### `hitEof` is sticky, standard output only grows -/
@@ -95,18 +96,19 @@ theorem execSimple_app (s : State) (fields : List String)
 /-- `t` extends `s`: same or more output and verbose echo, and an end of input once seen stays seen -/
 def Grows (s t : State) : Prop :=
   (∃ o, t.out = o ++ s.out) ∧ (s.hitEof = true → t.hitEof = true) ∧ (∃ e, t.echo = s.echo ++ e)
+    ∧ t.nonblock = s.nonblock
 
-theorem Grows.refl (s : State) : Grows s s := ⟨⟨[], rfl⟩, id, ⟨[], by simp⟩⟩
+theorem Grows.refl (s : State) : Grows s s := ⟨⟨[], rfl⟩, id, ⟨[], by simp⟩, rfl⟩
 
 theorem Grows.trans {a b c : State} (h1 : Grows a b) (h2 : Grows b c) : Grows a c := by
-  obtain ⟨⟨o1, e1⟩, k1, ⟨x1, y1⟩⟩ := h1
-  obtain ⟨⟨o2, e2⟩, k2, ⟨x2, y2⟩⟩ := h2
+  obtain ⟨⟨o1, e1⟩, k1, ⟨x1, y1⟩, n1⟩ := h1
+  obtain ⟨⟨o2, e2⟩, k2, ⟨x2, y2⟩, n2⟩ := h2
   exact ⟨⟨o2 ++ o1, by rw [e2, e1, List.append_assoc]⟩, fun h => k2 (k1 h),
-    ⟨x1 ++ x2, by rw [y2, y1, List.append_assoc]⟩⟩
+    ⟨x1 ++ x2, by rw [y2, y1, List.append_assoc]⟩, n2.trans n1⟩
 
 theorem grows_of_eq {s t : State} (ho : t.out = s.out) (he : t.hitEof = s.hitEof)
-    (hc : t.echo = s.echo) : Grows s t :=
-  ⟨⟨[], by simp [ho]⟩, by rw [he]; exact id, ⟨[], by simp [hc]⟩⟩
+    (hc : t.echo = s.echo) (hn : t.nonblock = s.nonblock := by rfl) : Grows s t :=
+  ⟨⟨[], by simp [ho]⟩, by rw [he]; exact id, ⟨[], by simp [hc]⟩, hn⟩
 
 theorem setOption_grows (s : State) (o : String) (on : Bool) : Grows s (setOption s o on) := by
   unfold setOption; split
@@ -115,19 +117,21 @@ theorem setOption_grows (s : State) (o : String) (on : Bool) : Grows s (setOptio
 
 theorem execRead_grows (s : State) (d : Nat) (raw : Bool) (names : List String) :
     Grows s (execRead s d raw names) := by
-  refine ⟨⟨[], ?_⟩, ?_, ⟨[], ?_⟩⟩
+  refine ⟨⟨[], ?_⟩, ?_, ⟨[], ?_⟩, ?_⟩
   · cases hsh : s.shared <;> simp [execRead, State.setStdin, hsh]
   · intro h; cases hsh : s.shared <;> simp [execRead, State.setStdin, hsh, h]
+  · cases hsh : s.shared <;> simp [execRead, State.setStdin, hsh]
   · cases hsh : s.shared <;> simp [execRead, State.setStdin, hsh]
 
 theorem execCat_grows (s : State) (here : Option (List Char)) :
     Grows s (execCat s here) := by
   cases here with
-  | some k => exact ⟨⟨_, rfl⟩, id, ⟨[], by simp [execCat]⟩⟩
+  | some k => exact ⟨⟨_, rfl⟩, id, ⟨[], by simp [execCat]⟩, rfl⟩
   | none =>
-    refine ⟨⟨(outLines (s.stdin.length + 1) s.stdin).reverse, ?_⟩, ?_, ⟨[], ?_⟩⟩
+    refine ⟨⟨(outLines (s.stdin.length + 1) s.stdin).reverse, ?_⟩, ?_, ⟨[], ?_⟩, ?_⟩
     · cases hsh : s.shared <;> simp [execCat, State.setStdin, hsh]
     · intro h; cases hsh : s.shared <;> simp [execCat, State.setStdin, hsh, h]
+    · cases hsh : s.shared <;> simp [execCat, State.setStdin, hsh]
     · cases hsh : s.shared <;> simp [execCat, State.setStdin, hsh]
 
 theorem execSimple_grows (s : State) (fields : List String)
@@ -138,8 +142,9 @@ theorem execSimple_grows (s : State) (fields : List String)
     simp only [execSimple]
     generalize classify name = u
     cases u with
-    | probe => exact ⟨⟨[_], rfl⟩, id, ⟨[], by simp [execUtil]⟩⟩
-    | aliasName => exact ⟨⟨[_], rfl⟩, id, ⟨[], by simp [execUtil]⟩⟩
+    | probe => exact ⟨⟨[_], rfl⟩, id, ⟨[], by simp [execUtil]⟩, rfl⟩
+    | aliasName => exact ⟨⟨[_], rfl⟩, id, ⟨[], by simp [execUtil]⟩, rfl⟩
+    | echo => exact ⟨⟨[_], rfl⟩, id, ⟨[], by simp [execUtil]⟩, rfl⟩
     | st => exact grows_of_eq rfl rfl rfl
     | colon => exact grows_of_eq rfl rfl rfl
     | read => exact execRead_grows _ _ _ _
@@ -162,7 +167,7 @@ theorem stepSimple_grows (ws : List Word) (here : Option (List Char)) (k : List 
 theorem stepSrc_grows (text : List Byte) (echoes executed : Bool) (k : List K) (s : State) :
     Grows s (stepSrc text echoes executed k s).2 := by
   unfold stepSrc
-  split <;> refine ⟨⟨[], by simp⟩, fun h => by simpa using h, ?_⟩ <;>
+  split <;> refine ⟨⟨[], by simp⟩, fun h => by simpa using h, ?_, rfl⟩ <;>
     (simp only []; split <;> first | exact ⟨_, rfl⟩ | exact ⟨[], by simp⟩)
 
 theorem step_grows (k k' : List K) (s s' : State)
